@@ -190,6 +190,12 @@ class ModelVisitor(object):
     
     def visit_expr_indexed_dynref(self, e):
         e.root.accept(self)
+        # Like a direct reference (visit_constraint_dynref), 
+        # visit the block that the path selects 
+        from vsc.visitors.expr2field_visitor import Expr2FieldVisitor
+        fm = Expr2FieldVisitor().field(e.root, False)
+        if fm is not None and hasattr(fm, "constraint_dynamic_model_l") and e.idx < len(fm.constraint_dynamic_model_l):
+            fm.constraint_dynamic_model_l[e.idx].accept(self)
         
     def visit_expr_indexed_fieldref(self, e):
         e.root.accept(self)
